@@ -17,16 +17,21 @@ from .runner import Check, OUT
 dn = core.dn
 
 
-def _tok(t):
+def _tok(t, rng=None, alt=False):
+    """text of a token; with alt, an integer field may be spelled with a leading zero or an explicit plus sign
+    (the same value for nodetype / timestamptype = int: the reading may not depend on the spelling)"""
+    if alt and t[0] == "i" and rng is not None:
+        v = int(t[1])
+        return rng.choice([str(v), ("0%d" % v) if v >= 0 else ("-0%d" % -v), ("+%d" % v) if v >= 0 else str(v)])
     return str(t[1])
 
 
 MARKERS = ["#", "#", "%", "//"]
 
 
-def render(line, delim, rng, marker="#"):
+def render(line, delim, rng, marker="#", alt=False):
     d = " " if delim is None else delim
-    txt = d.join(_tok(t) for t in line["toks"])
+    txt = d.join(_tok(t, rng, alt) for t in line["toks"])
     if line["ws"]:
         txt = rng.choice(["  ", " ", "\t"]) + txt + rng.choice(["  ", " \t", " "])
     if line["com"]:
@@ -63,10 +68,11 @@ def job_parse(job):
     grid = _grid(case)
     empty = core.observe(core.new_graph(directed, True), L, KNOWN, grid)
     marker = rng.choice(MARKERS)
-    res, G = _obs(lambda: _parse(parser, [render(l, delim, rng, marker) for l in case], delim, directed, marker))
+    alt = rng.random() < 0.3     # alternative spellings of the integer fields (03, +3)
+    res, G = _obs(lambda: _parse(parser, [render(l, delim, rng, marker, alt) for l in case], delim, directed, marker))
     cres, C = _obs(lambda: _parse(parser, [render(l, delim, rng, marker) for l in clean], delim, directed, marker))
     line = {"op": "parse", "parser": parser, "dir": bool(directed), "lines": case, "delim": repr(delim),
-            "marker": marker, "res": res, "cres": cres, "fork": False,
+            "marker": marker, "alt": alt, "res": res, "cres": cres, "fork": False,
             "obs": core.observe(G, L, KNOWN, grid) if G is not None else empty,
             "cobs": core.observe(C, L, KNOWN, grid) if C is not None else empty,
             "hdir": bool(G.is_directed()) if G is not None else bool(directed)}
@@ -82,7 +88,7 @@ def job_parse(job):
                 plain = [dict(l, toks=l["toks"][:4]) for l in plain]
             with os.fdopen(fd, "w") as f:
                 for l in plain:
-                    f.write(render(l, delim, rng))
+                    f.write(render(l, delim, rng, alt=alt))
             reader = dn.read_snapshots if parser == "snapshots" else dn.read_interactions
             kres, K = _obs(lambda: reader(path, directed=directed, delimiter=delim, nodetype=int, timestamptype=int, keys=True))
         finally:
